@@ -89,6 +89,7 @@ func checkC05(p *Prog, r *Report) {
 		r.Info("%s", s)
 	}
 	r.Stat("getter fields nil by construction", nGetters)
+	r.Stat("custom JSON decoders added to the inbound tree", w.Decoders)
 	r.Floor("R1", "getter fields that are nil by construction", nGetters, 1)
 	nf := 0
 	tf := 0
